@@ -501,24 +501,31 @@ impl RowIdTreeMap {
 
     /// Insert a range of values into the set
     pub fn insert_range<R: RangeBounds<u64>>(&mut self, range: R) -> u64 {
-        // Separate the start and end into high and low bits.
-        let (mut start_high, mut start_low) = match range.start_bound() {
-            std::ops::Bound::Included(&start) => ((start >> 32) as u32, start as u32),
-            std::ops::Bound::Excluded(&start) => {
-                let start = start.saturating_add(1);
-                ((start >> 32) as u32, start as u32)
-            }
-            std::ops::Bound::Unbounded => (0, 0),
+        // Resolve the bounds to an inclusive [start, end] range of u64 values.
+        let start = match range.start_bound() {
+            std::ops::Bound::Included(&start) => start,
+            std::ops::Bound::Excluded(&start) => match start.checked_add(1) {
+                Some(start) => start,
+                None => return 0,
+            },
+            std::ops::Bound::Unbounded => 0,
         };
+        let end = match range.end_bound() {
+            std::ops::Bound::Included(&end) => end,
+            std::ops::Bound::Excluded(&end) => match end.checked_sub(1) {
+                Some(end) => end,
+                None => return 0,
+            },
+            std::ops::Bound::Unbounded => u64::MAX,
+        };
+        if start > end {
+            // Empty range, nothing to insert
+            return 0;
+        }
 
-        let (end_high, end_low) = match range.end_bound() {
-            std::ops::Bound::Included(&end) => ((end >> 32) as u32, end as u32),
-            std::ops::Bound::Excluded(&end) => {
-                let end = end.saturating_sub(1);
-                ((end >> 32) as u32, end as u32)
-            }
-            std::ops::Bound::Unbounded => (u32::MAX, u32::MAX),
-        };
+        // Separate the start and end into high and low bits.
+        let (mut start_high, mut start_low) = ((start >> 32) as u32, start as u32);
+        let (end_high, end_low) = ((end >> 32) as u32, end as u32);
 
         let mut count = 0;
 
